@@ -193,7 +193,7 @@ Proof.
           (forall x, In x (uids st') -> In x (uids st) \/ In x (issued_of r))).
   { intros ts Hc. apply create_spec in Hc. destruct Hc as (C & U & I). split; [|split]; auto.
     intros x Hx. rewrite U in Hx. apply in_app_or in Hx. auto. }
-  destruct (i_op it) as [pol|pol|t pol|bases t pol|tgt|k tgt|tgt w|].
+  destruct (i_op it) as [pol|pol|t pol|bases t pol|tgt|k tgt|tgt w| |vs|].
   - eapply Cr; eauto.
   - eapply Cr; eauto.
   - eapply Cr; eauto.
@@ -206,6 +206,8 @@ Proof.
     destruct (access who (pop_of k) (resolve tgt ph) st); eapply Same; eauto; reflexivity.
   - destruct (access who PGet (resolve tgt ph) st); try (eapply Same; eauto; reflexivity).
     destruct (access who PGet (Some w) st); eapply Same; eauto; reflexivity.
+  - eapply Same; eauto; reflexivity.
+  - destruct (ver <? 11); eapply Same; eauto; reflexivity.
   - eapply Same; eauto; reflexivity.
 Qed.
 
@@ -439,7 +441,7 @@ Proof.
   destruct D as [D1 D2].
   unfold respects_dead, direct_target, indirect_refs; simpl.
   unfold step_item in H.
-  destruct (i_op it) as [pol|pol|t pol|bases t pol|tgt|k tgt|tgt w|]; simpl.
+  destruct (i_op it) as [pol|pol|t pol|bases t pol|tgt|k tgt|tgt w| |vs|]; simpl.
   - split; [|intros [?|?]; [discriminate|tauto]].
     split; [discriminate|]. split; [tauto|]. split; intros ids Hr; subst r; auto. unfold create in H.
     destruct (i_gate it); [destruct (add_objs _ _ _)|]; inversion H.
@@ -491,6 +493,8 @@ Proof.
       apply in_map_iff in Hin. destruct Hin as (o & Ho & Hf). apply filter_In in Hf. destruct Hf as [Hf _].
       apply in_map_iff. exists o. auto.
     + intros; discriminate.
+  - destruct (ver <? 11); inversion H; subst; (split; [|auto]); (split; [discriminate|]); (split; [tauto|]); split; intros; discriminate.
+  - inversion H; subst. split; [|auto]. split; [discriminate|]. split; [tauto|]. split; intros; discriminate.
 Qed.
 
 Lemma dead_run_items : forall u ver who cont its st ph es st' ph',
@@ -623,11 +627,13 @@ Proof.
           unfold last_id. destruct (rev ids) as [|x l] eqn:ER; auto. right. exists x. split; auto.
           rewrite Forall_forall in C. assert (Hx : In x ids). { apply in_rev. rewrite ER. left; auto. } apply C in Hx. lia.
         - inversion Hc; auto. }
-      destruct (i_op it) as [pol|pol|t pol|bases t pol|tgt|k tgt|tgt w|]; eauto.
+      destruct (i_op it) as [pol|pol|t pol|bases t pol|tgt|k tgt|tgt w| |vs|]; eauto.
       - destruct (check_bases who st bases); eauto; inversion E1; auto.
       - destruct (access who PDestroy (resolve tgt ph) st); [| |destruct (i_gate it)]; inversion E1; auto.
       - destruct (ver <? min_version k); [|destruct (access who (pop_of k) (resolve tgt ph) st)]; inversion E1; auto.
       - destruct (access who PGet (resolve tgt ph) st); [| |destruct (access who PGet (Some w) st)]; inversion E1; auto.
+      - inversion E1; auto.
+      - destruct (ver <? 11); inversion E1; auto.
       - inversion E1; auto. }
     pose proof (step_item_spec _ _ _ _ _ _ _ _ E1) as (C1 & _ & _). apply consec_le in C1.
     destruct (failed it r && negb cont).
